@@ -309,11 +309,22 @@ def _run(ctx, pq):
     results = L.run_dataset_jobs(ctx, check_dataset, cases, "e", _replayable)
     for case, res in zip(cases, results):
         ctx.case({k: case[k] for k in ("scheme", "on", "rgo", "frame")}, trivial=res.get("trivial", False))
-        for k in ("scheme", "rgo_kind", "n_on"):
-            ctx.count("E." + k, case["dist"][k])
+        for k in ("scheme", "rgo_kind", "n_on", "index", "write_index"):
+            ctx.count("E." + k, case["dist"].get(k, "range" if k == "index" else "None"))
         for kd in case["dist"]["kinds"]:
             ctx.count("E.partition_kind", kd)
         ctx.count("E.rows", "0" if case["n"] == 0 else ("1-5" if case["n"] <= 5 else "6+"))
+    # ---------------------------------------------------------------- F: programs on one handle
+    n_f = 48 if quick else 400
+    hcases = [gen_handle_case(rng, i) for i in range(n_f)]
+    hres = L.run_dataset_jobs(ctx, check_handle_prog, hcases, "f", _replayable)
+    for case, res in zip(hcases, hres):
+        ctx.case({k: case[k] for k in ("scheme", "on", "prog", "frames")}, trivial=res.get("trivial", False))
+        ctx.count("F.scheme", case["scheme"])
+        for o in case["dist"]["ops"]:
+            ctx.count("F.op", o)
+        for kd in case["dist"]["kinds"]:
+            ctx.count("F.partition_kind", kd)
     # ---------------------------------------------------------------- extraction vs kernel on a sample of the commands above
     fixed = [("write_model", True, [b"k", b"n"],
               [[[[[[2, b"a"]], [[0, 5]]], 0], [[[[2, b"b"]], []], 1]], [[[[[2, b"a"]], [[0, -7]]], 2], [[[[2, b"a"]], [[0, 5]]], 3]]]),
@@ -420,6 +431,59 @@ def gen_column(rng, kind, n, drill):
     raise ValueError(kind)
 
 
+INDEX_KINDS = ["dup", "concat", "nonmono", "str", "multi", "same", "float", "time"]
+
+
+def gen_index(rng, n, force=False):
+    """row labels of a generated frame as data: {'kind', 'values' (rows; lists for a MultiIndex), 'names'}"""
+    kind = rng.choice(INDEX_KINDS) if (force or rng.random() < 0.45) else "range"
+    if kind == "range" or n == 0:
+        return {"kind": "range"}
+    if kind == "dup":                   # few labels, many repeats (df.sample(replace=True), a non-unique key as index)
+        vals = [rng.randrange(max(1, n // 2)) for _ in range(n)]
+    elif kind == "concat":              # pd.concat([a, b]) without ignore_index
+        h = rng.randrange(1, n) if n > 1 else 1
+        vals = list(range(h)) + list(range(n - h))
+    elif kind == "nonmono":             # unique but shuffled, not starting at 0
+        vals = [x + rng.choice([0, 5]) for x in rng.sample(range(n), n)]
+    elif kind == "str":
+        pool = ["a", "b", "c", "", "é", "0"]
+        vals = [rng.choice(pool) for _ in range(n)]
+    elif kind == "multi":               # repeated tuples
+        vals = [[rng.choice(["x", "y"]), rng.randrange(2)] for _ in range(n)]
+    elif kind == "same":
+        vals = [7] * n
+    elif kind == "float":
+        vals = [rng.choice([0.5, 1.0, 0.5, -2.0]) for _ in range(n)]
+    else:                               # time: seconds since the epoch, repeated
+        vals = [rng.choice([0, 86400, 86400, 1577836800]) for _ in range(n)]
+    nlev = 2 if kind == "multi" else 1
+    # (a MultiIndex with an unnamed level cannot be written at all, partitioned or not: outside this property)
+    names = [rng.choice([None, None, "idx", "L0"])] if nlev == 1 else rng.choice([["L0", "L1"], ["idx", "L1"]])
+    return {"kind": kind, "values": vals, "names": names}
+
+
+def build_index(spec, n):
+    import pandas as pd
+    if not spec or spec.get("kind", "range") == "range":
+        return pd.RangeIndex(n)
+    vals, names = spec["values"], spec.get("names") or [None]
+    if spec["kind"] == "multi":
+        return pd.MultiIndex.from_tuples([tuple(v) for v in vals], names=names)
+    if spec["kind"] == "time":
+        return pd.Index(pd.to_datetime(vals, unit="s"), name=names[0])
+    return pd.Index(vals, name=names[0])
+
+
+def index_labels(index):
+    """canonical row labels of an index, one list per row"""
+    out = []
+    for lab in index.tolist():
+        lab = lab if isinstance(lab, tuple) else (lab,)
+        out.append([L.canon(x) for x in lab])
+    return out
+
+
 def gen_frame_case(rng, confirm, i):
     import numpy as np
     import pandas as pd
@@ -469,8 +533,14 @@ def gen_frame_case(rng, confirm, i):
     else:
         cuts = sorted(set(rng.sample(range(1, n), min(n - 1, rng.choice([1, 2, 3]))))) if n > 1 else []
         rgo = [0] + cuts
+    # the frame's ROW LABELS: the writer groups and splits by position, never by label, so duplicate / non-monotonic /
+    # text / tuple labels, stored (write_index True/None) or not (False), must not matter for where a row goes
+    index = gen_index(rng, n, force=(i % 5 == 3)) if which in (-1, 6) else {"kind": "range"}
+    write_index = rng.choice([None, None, True, False, False]) if index["kind"] != "range" else rng.choice([None, None, None, True, False])
     return {"scheme": scheme, "on": names, "rgo": rgo, "n": n, "frame": L.frame_to_data(df), "confirm": confirm,
-            "dist": {"scheme": scheme, "rgo_kind": rk, "n_on": n_on, "kinds": kinds}}
+            "index": index, "write_index": write_index,
+            "dist": {"scheme": scheme, "rgo_kind": rk, "n_on": n_on, "kinds": kinds, "index": index["kind"],
+                     "write_index": str(write_index)}}
 
 
 def check_dataset(case, root, pq, ctx=None, verbose=False):
@@ -484,6 +554,11 @@ def check_dataset(case, root, pq, ctx=None, verbose=False):
     hive = scheme == "hive"
     n = len(df)
     problems, cls_extra = [], {}
+    ispec, write_index = case.get("index") or {"kind": "range"}, case.get("write_index")
+    if ispec.get("kind", "range") != "range":
+        df.index = build_index(ispec, n)
+    index_stored = bool(write_index) or (write_index is None and ispec.get("kind", "range") != "range")
+    labels_in = index_labels(df.index)
 
     def say(*a):
         if verbose:
@@ -502,7 +577,7 @@ def check_dataset(case, root, pq, ctx=None, verbose=False):
     kinds = {c: L.kind_of_dtype(df[c].dtype) for c in on}
     label_kind = {c: ("s" if not is_cat[c] else L.canon(df[c].cat.categories[0])[0]) for c in on}
     tz_aware = any(isinstance(df[c].dtype, pd.DatetimeTZDtype) for c in on)
-    cls = {"scheme": scheme, "tz_aware": tz_aware, "partition_kinds": sorted({("cat:" + label_kind[c]) if is_cat[c] else kinds[c][1] for c in on})}
+    cls = {"scheme": scheme, "tz_aware": tz_aware, "index": ispec.get("kind", "range"), "write_index": str(write_index), "partition_kinds": sorted({("cat:" + label_kind[c]) if is_cat[c] else kinds[c][1] for c in on})}
     texts = {}
     for r in alive:
         texts[r] = [L.key_text(v, hive) for v in keyvals[r]]
@@ -517,7 +592,7 @@ def check_dataset(case, root, pq, ctx=None, verbose=False):
         cls["dirN_name_collision"] = any(c == "dir%d" % i2 for j, c in enumerate(on) for i2 in range(len(on)) if i2 != j)
 
     try:
-        write(root, df, file_scheme=scheme, partition_on=on, row_group_offsets=rgo)
+        write(root, df, file_scheme=scheme, partition_on=on, row_group_offsets=rgo, write_index=write_index)
     except Exception as e:      # noqa
         # the statement is about reads of what was written; a refused write is reported as such
         problems.append("write raised %s: %s" % (type(e).__name__, e))
@@ -611,8 +686,18 @@ def check_dataset(case, root, pq, ctx=None, verbose=False):
                     problems.append("ParquetFile.cats[%r] = %s, keys written %s" % (c, gotc[:6], wantc[:6]))
                     cls_extra["mismatch"] = "value"
         by_id = {}
+        labels_out = None
+        if index_stored:
+            try:
+                labels_out = index_labels(out.index)
+            except Exception as e:      # noqa
+                problems.append("row labels of the frame read back: %s: %s" % (type(e).__name__, e))
         for pos, rid in enumerate(ids):
             row = {}
+            if labels_out is not None and 0 <= rid < n and labels_out[pos] != labels_in[rid]:
+                problems.append("row %d: stored row label %r read back as %r" % (rid, labels_in[rid], labels_out[pos]))
+                cls_extra["mismatch"] = "row-label"
+                labels_out = None
             for c in ("p", "q"):
                 v = out[c].iloc[pos]
                 w = df[c].iloc[rid]
@@ -747,12 +832,297 @@ def check_dataset(case, root, pq, ctx=None, verbose=False):
     return {"problems": problems, "trivial": not alive, "cls": dict(cls, **cls_extra)}
 
 
+
+# -------------------------------------------------------------------------------------------------- stream F
+# read - edit-through-the-handle - read sequences on ONE ParquetFile handle of a partitioned dataset.  Everything a handle
+# shows of the partition columns (to_pandas, cats, iter_row_groups, slices, count) is a function of its current row groups:
+# after every edit made through the handle it must be what a freshly opened handle shows, and what the rows written say.
+H_POOLS = {
+    "int": [8, 1, 2, 3, 4, 5, 6, -7, 100, 0],
+    "str": ["b", "a", "01", "c", "d", "1", "e", "f", "g", "h", "é", "x y"],
+    "bool": [True, False],
+    "float": [0.5, 1.0, -2.25, 0.1, 3.0, 1e22, 2.5e-10],
+    "time": [1577836800, 0, 1577836800 + 3723, 86400, 4102444800, 946684799],
+    "cat": ["b", "a", "zz", "c", "é", "d", "x y", "q"],
+}
+
+
+def _h_column(kind, vals):
+    import numpy as np
+    import pandas as pd
+    if kind == "int":
+        return pd.Series(np.array(vals, dtype="int64"))
+    if kind == "bool":
+        return pd.Series(np.array(vals, dtype=bool))
+    if kind == "float":
+        return pd.Series(np.array([float("nan") if v is None else v for v in vals], dtype="float64"))
+    if kind == "time":
+        a = np.array([0 if v is None else v for v in vals], dtype="int64").astype("datetime64[s]").astype("datetime64[ns]")
+        if len(vals):
+            a[np.array([v is None for v in vals], dtype=bool)] = np.datetime64("NaT")
+        return pd.Series(a)
+    if kind == "cat":
+        cats = H_POOLS["cat"]
+        return pd.Series(pd.Categorical.from_codes([-1 if v is None else cats.index(v) for v in vals], categories=cats))
+    return pd.Series(np.array(list(vals) + [None], dtype=object)[:-1])
+
+
+def gen_handle_case(rng, i):
+    import numpy as np
+    import pandas as pd
+    scheme = rng.choice(["hive", "hive", "drill"])
+    n_on = rng.choice([1, 1, 2])
+    kinds = [rng.choice(["int", "int", "str", "str", "bool", "float", "time", "cat"]) for _ in range(n_on)]
+    # a drill dataset knows its levels only as dir0, dir1, ...: frames appended to it must call them so
+    names = rng.sample(["k", "part", "year", "K", "a.b"], n_on) if scheme == "hive" else ["dir%d" % j for j in range(n_on)]
+    pools = []
+    for kd in kinds:
+        pool = list(H_POOLS[kd])
+        if rng.random() < 0.6 and kd != "cat":
+            rng.shuffle(pool)
+        pools.append(pool)
+    n_batches = rng.choice([2, 2, 3, 4])
+    frames, idx_specs = [], []
+    for b in range(n_batches):
+        n = rng.choice([2, 3, 5, 8, 12]) if b else rng.choice([3, 5, 8])
+        cols = {}
+        for nm, kd, pool in zip(names, kinds, pools):
+            # later batches bring partition values not seen before (and repeat old ones)
+            seen_upto = min(len(pool), 2 + (2 + (i % 3)) * b)
+            nullable = kd not in ("int", "bool") and rng.random() < 0.25
+            vals = [None if (nullable and rng.random() < 0.2) else rng.choice(pool[:seen_upto]) for _ in range(n)]
+            if b and seen_upto > 2 and n >= 2:
+                vals[0] = pool[seen_upto - 1]           # at least one new value
+            cols[nm] = _h_column(kd, vals)
+        cols["id"] = pd.Series(np.arange(100 * b, 100 * b + n, dtype="int64"))
+        cols["p"] = pd.Series(np.array([rng.choice([0.5, float("nan"), -1.0]) for _ in range(n)], dtype="float64"))
+        cols["q"] = pd.Series(np.array([rng.choice(["u", "v", "ü", ""]) for _ in range(n)] + [None], dtype=object)[:-1])
+        order = list(cols)
+        if b == 0:
+            rng.shuffle(order)
+            first_order = order
+        frames.append(L.frame_to_data(pd.DataFrame({c: cols[c] for c in first_order})))
+        idx_specs.append(gen_index(rng, n))
+    obs = ["read", "read", "cats", "iter", "slice", "count", "columns"]
+    prog = [[rng.choice(["read", "read", "cats", "iter"])]] if rng.random() < 0.85 else []
+    for b in range(1, n_batches):
+        if rng.random() < 0.3:
+            prog.append(["remove", rng.choice(["dir", "dir", "rg", "last"]), rng.randrange(1000)])
+            prog.append([rng.choice(obs)])
+        n = len(frames[b]["columns"][0][1].get("values", frames[b]["columns"][0][1].get("codes", [])))
+        prog.append(["append", b, rng.choice([None, None, 1, 2, 4, [0, max(1, n // 2)]]), rng.choice(["handle", "handle", "write"])])
+        for _ in range(rng.choice([1, 2, 2])):
+            prog.append([rng.choice(obs)])
+    if rng.random() < 0.5:
+        prog.append(["remove", rng.choice(["dir", "rg", "first"]), rng.randrange(1000)])
+        prog.append(["read"])
+        prog.append([rng.choice(obs)])
+    return {"scheme": scheme, "on": names, "kinds": kinds, "frames": frames, "indexes": idx_specs, "prog": prog,
+            "rgo": rng.choice([None, 2, 3]),
+            "dist": {"scheme": scheme, "n_on": n_on, "kinds": kinds, "ops": [op[0] if op[0] != "append" else "append:" + op[3] for op in prog]}}
+
+
+def _drill_cell_ok(pq, g, t, want=None):
+    gm = L.from_model(pq.call("val_to_num", L.enc(t), [L.oracle_entry(t)]))
+    return g == want or g == ["s", t] or g == gm or (g[0] in "bif" and gm[0] in "bif" and float(_num(g)) == float(_num(gm)))
+
+
+def check_handle_prog(case, root, pq, ctx=None, verbose=False):
+    """Run the program of `case` on ONE handle; after every step compare what the handle shows with the rows written so far
+    (minus the removed ones), with a freshly opened handle, and with read_model on the handle's row-group paths."""
+    import pandas as pd
+    from fastparquet import write, ParquetFile, api
+    on, scheme = case["on"], case["scheme"]
+    hive = scheme == "hive"
+    frames = [L.frame_from_data(f) for f in case["frames"]]
+    for f, spec in zip(frames, case.get("indexes") or []):
+        if spec and spec.get("kind", "range") != "range":
+            f.index = build_index(spec, len(f))
+    pcols = on if hive else ["dir%d" % j for j in range(len(on))]
+    is_cat = {c: isinstance(frames[0][c].dtype, pd.CategoricalDtype) for c in on}
+    cls = {"stream": "handle", "scheme": scheme, "partition_kinds": sorted(set(case.get("kinds", [])))}
+    problems = []
+    live = {}               # id -> [key values] of the rows that must be in the dataset now
+    payload = {}
+
+    def say(*a):
+        if verbose:
+            print(*a)
+
+    def admit(f):
+        for r in range(len(f)):
+            kv = [None if L.is_null(f[c].iloc[r]) else f[c].iloc[r] for c in on]
+            if all(v is not None for v in kv):
+                rid = int(f["id"].iloc[r])
+                live[rid] = kv
+                payload[rid] = (f["p"].iloc[r], f["q"].iloc[r])
+
+    def cells_by_id(frame, what):
+        out = {}
+        if "id" not in frame.columns:
+            problems.append("%s: no id column (columns %r)" % (what, list(frame.columns)))
+            return out
+        for pos in range(len(frame)):
+            rid = int(frame["id"].iloc[pos])
+            if rid in out:
+                problems.append("%s: row %d returned twice" % (what, rid))
+            out[rid] = {c: L.canon(frame[c].iloc[pos]) for c in pcols if c in frame.columns}
+            if "p" in frame.columns and rid in payload:
+                v, w = frame["p"].iloc[pos], payload[rid][0]
+                if not ((L.is_null(v) and L.is_null(w)) or v == w):
+                    problems.append("%s: row %d payload p %r, written %r" % (what, rid, v, w))
+        return out
+
+    def check_cells(cells, what, want_ids=None, cols=None):
+        """cells: {id: {partition column: canonical cell}} as some read returned them"""
+        want_ids = sorted(live) if want_ids is None else want_ids
+        if sorted(cells) != want_ids:
+            problems.append("%s: row ids %r, rows written and not removed %r" % (what, sorted(cells)[:24], want_ids[:24]))
+            return
+        for rid in want_ids:
+            for j, c in enumerate(pcols):
+                if cols is not None and c not in cols:
+                    continue
+                g = cells[rid].get(c)
+                if g is None:
+                    problems.append("%s: partition column %r missing" % (what, c))
+                    return
+                want = L.canon(live[rid][j])
+                if hive:
+                    ok = g == want
+                else:
+                    ok = any(_drill_cell_ok(pq, g, t, want) for t in L.key_texts(live[rid][j], False))
+                if not ok:
+                    problems.append("%s: row %d column %s read %r, written %r" % (what, rid, c, g, want))
+                    return
+
+    def rg_path(rg):
+        return rg.columns[0].file_path
+
+    def file_ids(path):
+        return [int(x) for x in ParquetFile(os.path.join(root, path)).to_pandas(columns=["id"])["id"]]
+
+    step, last_edit = -1, "write"
+    try:
+        write(root, frames[0], file_scheme=scheme, partition_on=on, row_group_offsets=case.get("rgo"), write_index=False)
+        admit(frames[0])
+        pf = ParquetFile(root)
+        for step, op in enumerate(case["prog"]):
+            what = "step %d %s (after %s)" % (step, op[0], last_edit)
+            say(what, op)
+            if op[0] == "append":
+                f = frames[op[1]]
+                if op[3] == "handle":
+                    pf.write_row_groups(f, row_group_offsets=op[2])
+                else:       # write(append=True) uses a private handle: the one under test must be told (documented: re-open)
+                    write(root, f, file_scheme=scheme, partition_on=on, row_group_offsets=op[2], append=True, write_index=False)
+                    pf = ParquetFile(root)
+                admit(f)
+                last_edit = "append:" + op[3]
+            elif op[0] == "remove":
+                rgs = list(pf.row_groups)
+                if not rgs:
+                    continue
+                if op[1] == "dir":      # every row group of one partition directory: its label disappears
+                    dirs = sorted({rg_path(rg).rsplit("/", 1)[0] for rg in rgs})
+                    d = dirs[op[2] % len(dirs)]
+                    sel = [rg for rg in rgs if rg_path(rg).rsplit("/", 1)[0] == d]
+                elif op[1] == "rg":
+                    sel = [rgs[op[2] % len(rgs)]]
+                elif op[1] == "first":
+                    sel = [rgs[0]]
+                else:
+                    sel = [rgs[-1]]
+                if len(sel) == len(rgs):
+                    sel = sel[:-1]      # an emptied dataset is C09's business
+                if not sel:
+                    continue
+                gone = [rid for rg in sel for rid in file_ids(rg_path(rg))]
+                pf.remove_row_groups(sel)
+                for rid in gone:
+                    live.pop(rid, None)
+                last_edit = "remove:" + op[1]
+            else:
+                fresh = ParquetFile(root)
+                if op[0] in ("read", "columns"):
+                    kw = {} if op[0] == "read" else {"columns": [pcols[0], "id"]}
+                    cols = None if op[0] == "read" else [pcols[0]]
+                    same = cells_by_id(pf.to_pandas(**kw), what + ": handle.to_pandas()")
+                    check_cells(same, what + ": handle.to_pandas(%s)" % (kw or ""), cols=cols)
+                    fr = cells_by_id(fresh.to_pandas(**kw), what + ": fresh ParquetFile(dir).to_pandas()")
+                    check_cells(fr, what + ": fresh ParquetFile(dir).to_pandas(%s)" % (kw or ""), cols=cols)
+                    if not problems and same != fr:
+                        bad = [r for r in same if same[r] != fr.get(r)][:3]
+                        problems.append("%s: the handle shows %r, a fresh handle %r" % (what, {r: same[r] for r in bad}, {r: fr.get(r) for r in bad}))
+                    if ctx is not None and op[0] == "read" and not problems:
+                        paths = [rg_path(rg) for rg in pf.row_groups]
+                        fids = {p: file_ids(p) for p in set(paths)}
+                        pm = [[L.enc(k), L.kind_of_meta(v)] for k, v in pf.partition_meta.items()]
+                        dirs = list(api._strip_path_tail(paths)) if paths else []
+                        table = L.oracle_table([t for p in paths for seg in p.split("/") for t in seg.split("=")])
+                        mo = pq.call("read_model", pm, [[L.enc(p), fids[p]] for p in paths], [L.enc(d) for d in dirs], table)
+                        model = "raises" if not mo else [bytes(mo[0][0]).decode(), sorted(
+                            [rid, sorted([bytes(k).decode(), L.from_model(v)] for k, v in cells)] for cells, rid in mo[0][1])]
+                        impl = [pf.file_scheme, sorted([rid, sorted([c, v] for c, v in same[rid].items())] for rid in same)]
+                        if not hive and model != "raises":
+                            model = [model[0], [[rid, [[c, L.num_norm(v)] for c, v in cells]] for rid, cells in model[1]]]
+                            impl = [impl[0], [[rid, [[c, L.num_norm(v)] for c, v in cells]] for rid, cells in impl[1]]]
+                        ctx.correspondence("read_model ~ handle.to_pandas() after edits through the handle", _replayable(case), model, impl)
+                elif op[0] == "cats":
+                    for j, c in enumerate(pcols):
+                        hc = sorted({json.dumps(L.canon(v)) for v in pf.cats.get(c, [])})
+                        fc = sorted({json.dumps(L.canon(v)) for v in fresh.cats.get(c, [])})
+                        if hc != fc:
+                            problems.append("%s: handle.cats[%r] = %s, fresh handle %s" % (what, c, hc[:8], fc[:8]))
+                        wantc = sorted({json.dumps(L.canon(kv[j])) for kv in live.values()})
+                        if hive and live and fc != wantc:
+                            problems.append("%s: ParquetFile.cats[%r] = %s, keys written %s" % (what, c, fc[:8], wantc[:8]))
+                    if list(pf.cats) != list(fresh.cats):
+                        problems.append("%s: handle.cats has columns %r, fresh handle %r" % (what, list(pf.cats), list(fresh.cats)))
+                elif op[0] == "iter":
+                    parts = list(pf.iter_row_groups())
+                    cells = cells_by_id(pd.concat(parts) if parts else pf.to_pandas(), what + ": iter_row_groups()")
+                    if hive:
+                        check_cells(cells, what + ": handle.iter_row_groups()")
+                    elif sorted(cells) != sorted(live):
+                        problems.append("%s: iter_row_groups() row ids %r, expected %r" % (what, sorted(cells)[:24], sorted(live)[:24]))
+                elif op[0] == "slice":
+                    if len(pf.row_groups) > 1:
+                        sub = pf[1:]
+                        want_ids = sorted(rid for rg in sub.row_groups for rid in file_ids(rg_path(rg)))
+                        cells = cells_by_id(sub.to_pandas(), what + ": handle[1:].to_pandas()")
+                        if hive:
+                            check_cells(cells, what + ": handle[1:].to_pandas()", want_ids=want_ids)
+                        elif sorted(cells) != want_ids:
+                            problems.append("%s: handle[1:] row ids %r, expected %r" % (what, sorted(cells)[:24], want_ids[:24]))
+                elif op[0] == "count":
+                    if pf.count() != len(live) or int(pf.fmd.num_rows) != len(live) or fresh.count() != len(live):
+                        problems.append("%s: count() %r / num_rows %r / fresh count() %r, rows %d" % (
+                            what, pf.count(), pf.fmd.num_rows, fresh.count(), len(live)))
+            if problems:
+                break
+    except Exception as e:      # noqa
+        import traceback
+        problems.append("step %d %r (after %s) raised %s: %s" % (step, case["prog"][step] if 0 <= step < len(case["prog"]) else "write", last_edit,
+                                                             type(e).__name__, str(e)[:200]))
+        say(traceback.format_exc())
+        cls["stage"] = "raises"
+    if problems and ctx is not None:
+        opk = case["prog"][step][0] if 0 <= step < len(case["prog"]) else "write"
+        ctx.fail(dict(cls, op=opk, after=last_edit.split(":")[0]), _replayable(case), "; ".join(problems[:4]))
+    for p in problems[:10]:
+        say("PROBLEM:", p)
+    return {"problems": problems, "trivial": not live, "cls": cls}
+
+
 def _num(c):
     return {"b": int, "i": int, "f": float}[c[0]](c[1])
 
 
 def _replayable(case):
-    return {k: case[k] for k in ("scheme", "on", "rgo", "n", "frame")}
+    if "prog" in case:
+        return {k: case[k] for k in ("scheme", "on", "kinds", "frames", "indexes", "prog", "rgo") if k in case}
+    return {k: case[k] for k in ("scheme", "on", "rgo", "n", "frame", "index", "write_index") if k in case}
 
 
 def replay(rep):
@@ -761,10 +1131,12 @@ def replay(rep):
         first = (rep.get("no_longer_checks") or [{}])[0]
         print(json.dumps(rep, indent=1, default=repr)[:5000])
         case = first.get("detail", {}).get("case") if isinstance(first.get("detail"), dict) else None
-        if not (isinstance(case, dict) and "frame" in case):
+        if not (isinstance(case, dict) and ("frame" in case or "prog" in case)):
             return 1
     else:
         case = rep["case"]
+    if "prog" in case:
+        return _replay_handle(case)
     if "frame" not in case:
         print(json.dumps(rep, indent=1, default=repr)[:5000])
         return 1
@@ -773,7 +1145,9 @@ def replay(rep):
     try:
         print("frame:")
         print(L.frame_from_data(case["frame"]).to_string(max_rows=40))
-        print("write(file_scheme=%r, partition_on=%r, row_group_offsets=%r)" % (case["scheme"], case["on"], case["rgo"]))
+        if case.get("index") and case["index"].get("kind", "range") != "range":
+            print("row labels (%s, names %r): %r" % (case["index"]["kind"], case["index"].get("names"), case["index"]["values"]))
+        print("write(file_scheme=%r, partition_on=%r, row_group_offsets=%r, write_index=%r)" % (case["scheme"], case["on"], case["rgo"], case.get("write_index")))
         # in a forked worker: a native crash of the real code is an observation of the replay, not its end
         out = C.pmap(lambda c: check_dataset(c, os.path.join(tmp, "ds"), L.worker_pq(), None, verbose=True)["problems"],
                      [case], nproc=1, job_timeout=300)[0]
@@ -784,4 +1158,23 @@ def replay(rep):
         return 1 if out else 0
     finally:
         pq.close()
+        shutil.rmtree(tmp, ignore_errors=True)
+
+
+def _replay_handle(case):
+    tmp = tempfile.mkdtemp(prefix="verif-C08-replay-", dir="/tmp")
+    try:
+        for b, f in enumerate(case["frames"]):
+            print("frame %d%s:" % (b, "" if not (case.get("indexes") or [None] * 9)[b] else "  (row labels: %s)" % case["indexes"][b].get("kind")))
+            print(L.frame_from_data(f).to_string(max_rows=30))
+        print("write(dir, frame 0, file_scheme=%r, partition_on=%r, row_group_offsets=%r, write_index=False); pf = ParquetFile(dir); program on pf: %r"
+              % (case["scheme"], case["on"], case.get("rgo"), case["prog"]))
+        out = C.pmap(lambda c: check_handle_prog(c, os.path.join(tmp, "ds"), L.worker_pq(), None, verbose=True)["problems"],
+                     [case], nproc=1, job_timeout=300)[0]
+        if isinstance(out, dict) and "__crashed__" in out:
+            print("PROPERTY FAILS: the real code did not survive this program:", out["__crashed__"], out.get("tb", ""))
+            return 1
+        print("PROPERTY FAILS" if out else "property holds on this program")
+        return 1 if out else 0
+    finally:
         shutil.rmtree(tmp, ignore_errors=True)
